@@ -29,12 +29,37 @@ _sys.path.insert(0, _os.path.dirname(__file__))
 from funnel_common import funnel_stop_job
 PROP["jobs"].append(funnel_stop_job("C06"))
 
+# arch-v2 worker stop protocol: model Model/WorkerStop.lean, theorems Props/C06Worker.lean (C06_v2_*),
+# statement-order facts Facts/C06Worker.lean, trace acceptance of the same funnelstop runs
+PROP["lean_modules"] += ["ConduitModel.Props.C06Worker", "ConduitModel.Facts.C06Worker"]
+PROP["jobs"].append({"harness": "h_funnel", "comp": "funnelstop", "driver": "workerstop", "n_quick": 1200, "n_thorough": 40000,
+                     "fail_tag": "C06",
+                     "why": "the recorded trace of a graceful Worker.Stop arriving at a random instant of a real funnel.Worker run (Read returns "
+                            "R<k>/RE, pass events, source teardown T, Stop requested/returned SR/SD, Do returned Z) is not a run of the worker "
+                            "stop model (reject@k: e.g. a pass or an ack after the teardown, a second Source.Teardown, Stop returning while a "
+                            "pass is in flight), or the C06 post-condition Drained fails in a model state compatible with the trace"})
+
+PROP["rule"] += ("; funnelstop (workerstop): the same funnel cases with >= 4 batches and a graceful Worker.Stop fired after 1-14 trace events "
+                 "(also right after a Read returned, random yields), the whole trace replayed through the worker stop model")
+PROP["strength"] += ("; arch-v2 worker (C06_v2_*): for every event list of the stop model (every interleaving of Stop's statements with the "
+                     "Do loop, any batches / Read outcomes / pass behaviour allowed by the C04 pass theorems): Drained at and after the return "
+                     "of Stop, exactly-once teardown, no ack after teardown, deadlock freedom with a decreasing variant; lock fairness, a "
+                     "cancelled context and a failing Source.Teardown are not modelled")
+PROP["assumptions"] += ["arch-v2 worker: a running pass eventually ends; Go's channel hand-off (a released processingLock slot goes to the "
+                        "blocked Stop) is not modelled: the variant is non-increasing except when the reader re-takes the free lock first",
+                        "arch-v2 worker: one Stop call, context never cancelled, Source.Teardown succeeds"]
+
 META = {
     "text": "Lean 4: for every healthy run of M3 (all interleavings of acks, flush triggers, callbacks, delivery retries and the "
             "statements of Source.Teardown), when Teardown has returned nil: pending and delivery queue empty, every Ack of the "
             "incarnation delivered in order, nothing dropped, store = last acked, plugin torn down exactly once, no delivery "
             "possible afterwards (C06_stop_drained); exactly-once teardown and no delivery after plugin teardown for every event "
-            "list. Teardown statement order is a regenerated call-order fact; traces of real stops are accepted by the model.",
+            "list. Teardown statement order is a regenerated call-order fact; traces of real stops are accepted by the model. "
+            "arch-v2 worker (Model/WorkerStop.lean, statement-level interleaving of Worker.Stop with the Do loop): C06_v2_stop_drained "
+            "(no pass in flight at/after the return of Stop, ok batches fully acked before the teardown, concurrently read batch discarded "
+            "untouched), C06_v2_teardown_exactly_once, C06_v2_no_ack_after_teardown, C06_v2_stop_no_deadlock / _completes (variant) for every "
+            "event list; statement order (lock before stop check, Stop: lock-flag-teardown, once-guard) regenerated from worker.go; real "
+            "Worker.Stop traces replayed through the model (workerstop).",
     "note": "Proved about the model under explicit hypotheses; F11 (failed final flush => WaitPersisted never returns) is proved "
             "of the model (C06_F11_stop_and_wait_hangs), confirmed on the code and documented as outside the healthy hypothesis.",
     "technique": "Lean 4 invariant proofs over an event system with a program counter for Teardown + trace acceptance of real stops",
